@@ -76,6 +76,9 @@ AReplay(cfg, cmds, k, s) ==
        /\ (r.s.st = "Dead" <=> cm.eof = 1)
        /\ (cm.c = "begin" /\ r.s.st = "Authed" =>
               /\ cm.hello = 1
-              /\ cm.ident = (CASE r.s.authz = "uid" -> cfg.sockUid [] r.s.authz = "server" -> cfg.serverUid [] OTHER -> -1))
+              /\ cm.ident = (CASE r.s.authz = "uid" -> cfg.sockUid [] r.s.authz = "server" -> cfg.serverUid [] OTHER -> -1)
+              \* the groups read from the socket belong to the socket's owner: they go with the identity EXTERNAL
+              \* establishes and with no other (a cookie proves who you are, not whose socket this is)
+              /\ cm.gids = (IF r.s.authz = "uid" THEN cfg.sockGids ELSE <<>>))
        /\ AReplay(cfg, cmds, k + 1, r.s)
 =============================================================================
